@@ -6,7 +6,7 @@
 From Coq Require Import List ZArith Bool Arith Lia.
 From SC Require Import Base.Res Base.PyList Inst.Heap Inst.ClassTable Inst.Model Inst.Canon
   Inst.Abs Inst.SpecHelpers Inst.ElemProofs Inst.Framed Inst.RefineProofs Inst.CopyProofs Inst.ElemRefine
-  Inst.ElemRefine2 Inst.ElemRefine3 Inst.ElemRefine4 Inst.ElemRefine5 Inst.ElemRefine6 Inst.ElemRefine7.
+  Inst.ElemRefine2 Inst.ElemRefine3 Inst.ElemRefine4 Inst.ElemRefine5 Inst.ElemRefine6 Inst.ElemRefine7 Inst.ElemRefine8.
 Import ListNotations.
 Open Scope nat_scope.
 
@@ -537,6 +537,139 @@ Section GuardedCopy.
 End GuardedCopy.
 
 (* ------------------------------------------------------------------ *)
+(** * The guard of the calls that create the container *)
+
+Definition kind_ty (kd : ckind) (t : ty) : bool :=
+  match kd, t with
+  | KList, TList _ | KDict, TDict _ _ | KSet, TSet _ => true
+  | _, _ => false
+  end.
+
+(* flat receiver of an unfrozen class without invalidated_by whose attribute a is declared as a
+   list / dict / set and holds NOTHING: no entry in the instance, no class-level default *)
+Definition missing_guard (ct : ctable) (s : state) (l : loc) (a : aid) (kd : ckind) : bool :=
+  match nth_error (heap s) l with
+  | Some (OInst c d) =>
+      match lookup_cls ct c with
+      | Some k =>
+          match lookup_attr k a, assoc a d, assoc a (c_overrides k) with
+          | Some sp, None, None =>
+              nodupb (map fst d) && negb (c_frozen k) && no_invalb k
+              && (ty_depth (a_ty sp) <=? FUEL) && flat_fieldsb (heap s) d
+              && match a_default sp with VMissing => true | _ => false end
+              && kind_ty kd (a_ty sp)
+          | _, _, _ => false
+          end
+      | None => false
+      end
+  | _ => false
+  end.
+
+Section GuardedMissing.
+  Variable ct : ctable.
+  Variable h0 : list obj.
+  Variable s : state.
+  Variables (l : loc) (a : aid).
+
+  Lemma missing_guard_sound kd : missing_guard ct s l a kd = true ->
+    exists c d k sp,
+      nth_error (heap s) l = Some (OInst c d) /\ lookup_cls ct c = Some k /\ lookup_attr k a = Some sp /\
+      NoDup (map fst d) /\ c_frozen k = false /\ no_inval k /\ ty_depth (a_ty sp) <= FUEL /\
+      assoc a d = None /\ assoc a (c_overrides k) = None /\ a_default sp = VMissing /\
+      flat_fields (heap s) d /\ kind_ty kd (a_ty sp) = true /\ attr_spec_of ct s l a = Some sp.
+  Proof.
+    unfold missing_guard, attr_spec_of. intro H.
+    destruct (nth_error (heap s) l) as [[| | |c d]|] eqn:El; try discriminate.
+    destruct (lookup_cls ct c) as [k|] eqn:Ec; try discriminate.
+    destruct (lookup_attr k a) as [sp|] eqn:Ea; try discriminate.
+    destruct (assoc a d) eqn:Ef; try discriminate.
+    destruct (assoc a (c_overrides k)) eqn:Eo; try discriminate.
+    repeat (apply andb_true_iff in H; destruct H as [H ?]).
+    exists c, d, k, sp. repeat (split; [auto|]); auto.
+    - now apply nodupb_sound.
+    - now apply negb_true_iff.
+    - now apply no_invalb_sound.
+    - now apply Nat.leb_le.
+    - destruct (a_default sp); try discriminate; reflexivity.
+    - now apply flat_fieldsb_sound.
+  Qed.
+
+  Ltac mfacts kd H :=
+    destruct (missing_guard_sound kd H) as [c [d [k [sp [Gl [Gc [Ga [Gd [Gfz [Gni [Gdep [Gnone [Gov [Gdef [Gflat [Gk Gsp]]]]]]]]]]]]]]]].
+
+  Theorem with_item_list_missing_guarded idx v ins :
+    missing_guard ct s l a KList = true -> plain_items ct s l a = true ->
+    vscalar v = true -> (idx = VMissing \/ exists i, idx = VInt i) ->
+    missing_refines_spec ct h0 s l (HWithItem a) (mkh [v] true true idx ins None None [] None)
+                         (SWithItem a) (mkah [abs0 v] true true (abs0 idx) ins None None [] None).
+  Proof.
+    intros H Hp Hv Hi. mfacts KList H.
+    destruct (a_ty sp) as [| | | | | | |ity| |ity'|] eqn:Hty; try discriminate Gk.
+    destruct (plain_items_facts ct s l a sp Gsp Hp) as [P1 P2]. rewrite Hty in P2. cbn [item_type] in P2.
+    exact (with_item_list_missing_refines ct h0 l a c d k sp s Gl Gc Ga Gd Gfz Gni Gnone Gov Gdef Gflat ity idx v ins
+             Hty P1 P2 ltac:(cbn [ty_depth] in Gdep; lia) Hv Hi).
+  Qed.
+
+  Theorem without_item_list_missing_guarded voi bi :
+    missing_guard ct s l a KList = true -> nonref voi = true ->
+    missing_refines_spec ct h0 s l (HWithoutItem a) (mkh [voi] true true VMissing false bi None [] None)
+                         (SWithoutItem a) (mkah [abs0 voi] true true AMissing false bi None [] None).
+  Proof.
+    intros H Hv. mfacts KList H.
+    destruct (a_ty sp) as [| | | | | | |ity| |ity'|] eqn:Hty; try discriminate Gk.
+    exact (without_item_list_missing_refines ct h0 l a c d k sp s Gl Gc Ga Gd Gfz Gni Gnone Gov Gdef Gflat ity voi bi
+             Hty ltac:(cbn [ty_depth] in Gdep; lia) Hv).
+  Qed.
+
+  Theorem with_item_dict_missing_guarded key v :
+    missing_guard ct s l a KDict = true -> plain_items ct s l a = true ->
+    nonref key = true -> vscalar v = true ->
+    missing_refines_spec ct h0 s l (HWithItem a) (mkh [key; v] true true VMissing false None None [] None)
+                         (SWithItem a) (mkah [abs0 key; abs0 v] true true AMissing false None None [] None).
+  Proof.
+    intros H Hp Hkey Hv. mfacts KDict H.
+    destruct (a_ty sp) as [| | | | | | | |tk tv| |] eqn:Hty; try discriminate Gk.
+    destruct (plain_items_facts ct s l a sp Gsp Hp) as [P1 P2]. rewrite Hty in P2. cbn [item_type] in P2.
+    assert (D1 : ty_depth tk < FUEL) by (cbn [ty_depth] in Gdep; lia).
+    assert (D2 : ty_depth tv < FUEL) by (cbn [ty_depth] in Gdep; lia).
+    exact (with_item_dict_missing_refines ct h0 l a c d k sp s Gl Gc Ga Gd Gfz Gni Gnone Gov Gdef Gflat tk tv key v
+             Hty P1 P2 D1 D2 Hkey Hv).
+  Qed.
+
+  Theorem without_item_dict_missing_guarded key :
+    missing_guard ct s l a KDict = true -> nonref key = true ->
+    missing_refines_spec ct h0 s l (HWithoutItem a) (mkh [key] true true VMissing false None None [] None)
+                         (SWithoutItem a) (mkah [abs0 key] true true AMissing false None None [] None).
+  Proof.
+    intros H Hkey. mfacts KDict H.
+    destruct (a_ty sp) as [| | | | | | | |tk tv| |] eqn:Hty; try discriminate Gk.
+    exact (without_item_dict_missing_refines ct h0 l a c d k sp s Gl Gc Ga Gd Gfz Gni Gnone Gov Gdef Gflat tk tv key Hty Hkey).
+  Qed.
+
+  Theorem with_item_set_missing_guarded v :
+    missing_guard ct s l a KSet = true -> plain_items ct s l a = true -> vscalar v = true ->
+    missing_refines_spec ct h0 s l (HWithItem a) (mkh [v] true true VMissing false None None [] None)
+                         (SWithItem a) (mkah [abs0 v] true true AMissing false None None [] None).
+  Proof.
+    intros H Hp Hv. mfacts KSet H.
+    destruct (a_ty sp) as [| | | | | | |ity'| |ity|] eqn:Hty; try discriminate Gk.
+    destruct (plain_items_facts ct s l a sp Gsp Hp) as [P1 P2]. rewrite Hty in P2. cbn [item_type] in P2.
+    exact (with_item_set_missing_refines ct h0 l a c d k sp s Gl Gc Ga Gd Gfz Gni Gnone Gov Gdef Gflat ity v
+             Hty P1 P2 ltac:(cbn [ty_depth] in Gdep; lia) Hv).
+  Qed.
+
+  Theorem without_item_set_missing_guarded voi :
+    missing_guard ct s l a KSet = true -> nonref voi = true ->
+    missing_refines_spec ct h0 s l (HWithoutItem a) (mkh [voi] true true VMissing false None None [] None)
+                         (SWithoutItem a) (mkah [abs0 voi] true true AMissing false None None [] None).
+  Proof.
+    intros H Hv. mfacts KSet H.
+    destruct (a_ty sp) as [| | | | | | |ity'| |ity|] eqn:Hty; try discriminate Gk.
+    exact (without_item_set_missing_refines ct h0 l a c d k sp s Gl Gc Ga Gd Gfz Gni Gnone Gov Gdef Gflat ity voi Hty Hv).
+  Qed.
+End GuardedMissing.
+
+(* ------------------------------------------------------------------ *)
 (** * A concrete class and receiver: xs : List[int], m : Dict[str, int], t : Set[int] *)
 
 Definition ex_list_sp : attr_spec := mkattr 1 (TList TInt) VMissing None 0 true false None None [].
@@ -554,3 +687,6 @@ Definition ex_state : state :=
 (* the same class declared frozen: copy-on-write calls work on it, in-place calls do not *)
 Definition ex_cls_frozen : cls := mkcls 0 [ex_list_sp; ex_dict_sp; ex_set_sp] true false None [0] 0 [] None None.
 Definition ex_ct_frozen : ctable := [ex_cls_frozen].
+
+(* an instance of the same class whose three collection attributes hold nothing *)
+Definition ex_state_missing : state := mkst [OInst 0 []] 0 None.
